@@ -57,8 +57,19 @@ def enum_members(repo, module, name):
     m = repo.module(module) if isinstance(module, str) else module
     if name in m.assigns:
         v = m.assigns[name]
-        if (isinstance(v, ast.Call) and unparse(v.func) in ('Enum', 'enum.Enum')
-                and len(v.args) == 2):
+        is_enum_ctor = False
+        if isinstance(v, ast.Call) and len(v.args) == 2:
+            ft = unparse(v.func)
+            if ft in ('Enum', 'enum.Enum'):
+                is_enum_ctor = True
+            else:
+                r = repo.resolve_expr(m, v.func) if isinstance(
+                    v.func, (ast.Name, ast.Attribute)) else None
+                if r and r[0] == 'class' and any(
+                        'Enum' in b or 'Flag' in b
+                        for b in r[1].external_bases()):
+                    is_enum_ctor = True
+        if is_enum_ctor:
             lst = const_eval(repo, m, v.args[1])
             if isinstance(lst, (list, tuple)):
                 return list(lst)
